@@ -142,7 +142,7 @@ func (r Ring) INTT(p1, p2 Poly) {
 }
 
 // NTTLazy computes the NTT of p1 and returns the result on p2.
-// Output values are in the range [0, 2q-1].
+// Output values are in the range [0, 6q-2].
 func (r Ring) NTTLazy(p1, p2 Poly) {
 	if r.RingQ != nil {
 		r.RingQ.NTTLazy(p1.Q, p2.Q)
@@ -206,7 +206,8 @@ func (r Ring) MulCoeffsMontgomeryLazy(p1, p2, p3 Poly) {
 
 // MulCoeffsMontgomeryLazyThenAddLazy multiplies p1 by p2 coefficient-wise with a
 // constant-time Montgomery modular reduction and adds the result on p3.
-// Result is within [0, 2q-1]
+// The product is within [0, 2q-1] and is added on p3 without modular reduction
+// (result within [0, 3q-2] for a reduced p3).
 func (r Ring) MulCoeffsMontgomeryLazyThenAddLazy(p1, p2, p3 Poly) {
 	if r.RingQ != nil {
 		r.RingQ.MulCoeffsMontgomeryLazyThenAddLazy(p1.Q, p2.Q, p3.Q)
